@@ -156,6 +156,7 @@ def validate(calls, ops, opts, model_exe, res, keys_known, check_every_layout=Tr
     iters = {}            # id -> (view list, pos)
     opened = False
     repaired = False
+    repair_new = set()    # tables created by repair from log files
     gc_clean = True       # the last obsolete-file removal ran while no iterator pinned an old version
     backups = {}          # C20: backup slot -> model view at the moment the backup was taken
     lk_open = False       # C20: the lock model (Lifecycle.v lk_step) has a handle open on the directory
@@ -383,6 +384,7 @@ def validate(calls, ops, opts, model_exe, res, keys_known, check_every_layout=Tr
                     if known - ondisk:
                         res.problem('dir-vs-live', call['idx'], detail='table lost by repair', ondisk=sorted(ondisk), live=sorted(known))
                     new = sorted(ondisk - known)
+                    repair_new |= set(new)
                     nf0 = max([int(n.split('.')[0]) for n in numbered] + [0]) + 1
                     r = m.ask('e_repair %s %d' % (','.join(map(str, new)) or '.', nf0))
                     if r != 'ok':
@@ -427,7 +429,13 @@ def validate(calls, ops, opts, model_exe, res, keys_known, check_every_layout=Tr
                 if name == 'has':
                     mg = mg.split(' ')[0]; sp = sp.split(' ')[0]
                 if cret != sp:
-                    res.problem('read-vs-spec-after-repair' if (repaired and cret == mg) else 'read-vs-spec',
+                    # finding F1 is: after a repair the newest entry sits in a PRE-EXISTING table that is numbered below the
+                    # table holding an older one; anything else (e.g. the table made from the log being the stale-losing one) is new
+                    f1 = False
+                    if repaired and cret == mg:
+                        w = m.ask('e_where %s %s' % (k, q))
+                        f1 = w.isdigit() and int(w) not in repair_new
+                    res.problem('read-vs-spec-after-repair' if f1 else 'read-vs-spec',
                                 call['idx'], op=opline, implementation=cret, spec=sp, model_get=mg)
                 elif cret != mg:
                     res.problem('replica-divergence', call['idx'], op=opline, implementation=cret, model_get=mg)
